@@ -4,11 +4,15 @@ from .. import gen
 from .. import model as M
 
 
-def one(ctx, ch0, hist, tag):
+def one(ctx, ch0, hist, tag, dupnames=False):
     from .. import battery as B
     from .. import forest as F
 
     recs = [F.Rec(F.materialise(f, ch0)) for f in ("NM", "LM")]
+    if dupnames:
+        for r in recs:
+            for i, n in enumerate(r.nodes):
+                n.name = "d%d" % (i % 3)  # several nodes (also siblings) share a name
     case0 = {"state": [list(c) for c in ch0], "history": [[F._jsonable(c), F._jsonable(p)] for c, p in hist]}
     for step, (call, planspec) in enumerate(hist):
         # the navigation attributes are read on the same objects before every further call, so a memo
@@ -24,7 +28,7 @@ def one(ctx, ch0, hist, tag):
         for r, f in zip(recs, ("NM", "LM")):
             F.run_call(r, f, call, F.Plan(planspec), snaps_on=False)
     s0, s1 = recs[0].snapshot(), recs[1].snapshot()
-    case = {"state": [list(c) for c in ch0], "history": [[F._jsonable(c), F._jsonable(p)] for c, p in hist]}
+    case = {"state": [list(c) for c in ch0], "history": [[F._jsonable(c), F._jsonable(p)] for c, p in hist], "dupnames": dupnames}
     ctx.case((tag, ch0, tuple(hist)), sample=case if ctx.counters["mon.C18.queries"] % 97 == 0 else None)
     ctx.count("mon.C18.queries")
     if s0 != s1:
@@ -32,8 +36,8 @@ def one(ctx, ch0, hist, tag):
         return
     if M.invariant(s0):
         return
-    bn = B.battery(recs[0].nodes, level=1)
-    bl = B.battery(recs[1].nodes, level=1)
+    bn = B.battery(recs[0].nodes, level=1, names=[str(n.name) for n in recs[0].nodes] if dupnames else None)
+    bl = B.battery(recs[1].nodes, level=1, names=[str(n.name) for n in recs[1].nodes] if dupnames else None)
     ctx.count("C18.query_values_compared", len(bn))
     d = B.diff(bn, bl)
     if d:
@@ -67,11 +71,11 @@ def run(ctx):
             call = eng.random_call(rng, k, par, "LM")
             planspec = ("none",) if rng.random() < 0.7 else ("once", rng.randrange(6))
             hist.append((call, planspec))
-        one(ctx, ch0, hist, "hist")
+        one(ctx, ch0, hist, "hist", dupnames=(h % 3 == 0))
 
 
 def replay(ctx, wit):
     from .forest_engine import tup
 
     c = wit["case"]
-    one(ctx, tup(c["state"]), [(tup(a), tup(b)) for a, b in c["history"]], "replay")
+    one(ctx, tup(c["state"]), [(tup(a), tup(b)) for a, b in c["history"]], "replay", dupnames=c.get("dupnames", False))
